@@ -38,9 +38,13 @@ impl SimulationBoundary {
             HalfSpace::new(DVec3::NEG_Z, anchor + width, None, None),
         ];
 
+        // The integer grid must contain the (closed) box and the mirror images of all its points
+        // through the walls, i.e. the closed interval [anchor - width, anchor + 2 * width], also
+        // when those images are computed with rounding errors. Use a domain of 4 widths with a
+        // margin of half a width on both sides, so that both ends are mapped strictly inside [1, 2).
         Self {
-            anchor: anchor - width,
-            inverse_width: 1. / (3. * width),
+            anchor: anchor - 1.5 * width,
+            inverse_width: 1. / (4. * width),
             dimensionality,
             clipping_planes,
         }
